@@ -111,6 +111,9 @@ pub enum COp {
     /// The subscription at the tower lapses: it answers add_appointment with a subscription error (code 7) until it has
     /// served a registration.
     Lapse { t: u32 },
+    /// The tower keeps answering add_appointment with a subscription error (code 7) whatever the client renews (its
+    /// registrations are served normally), until its default is set back to accepting.
+    LapseForGood { t: u32 },
     RetryTower { t: u32 },
     AbandonTower { t: u32 },
     ListTowers,
@@ -151,6 +154,7 @@ impl COp {
             COp::Default { .. } => "default",
             COp::Latency { .. } => "latency",
             COp::Lapse { .. } => "lapse",
+            COp::LapseForGood { .. } => "lapse_for_good",
             COp::RetryTower { .. } => "retrytower",
             COp::AbandonTower { .. } => "abandontower",
             COp::ListTowers => "listtowers",
@@ -199,6 +203,8 @@ pub struct FakeTower {
     pub lapsed: bool,
     /// the client has been told about the lapse (first code-7 answer of this episode served)
     pub lapse_told: bool,
+    /// add_appointment is answered with code 7 whatever is renewed, since this virtual instant
+    pub lapsed_for_good: Option<u64>,
 }
 
 pub struct NetState {
@@ -209,6 +215,9 @@ pub struct NetState {
     pub requests_without_time_advance: u32,
     pub last_request_ms: u64,
     pub hot_loop: bool,
+    /// more requests than any well-behaved client sends in one history: every further answer takes 30 virtual seconds,
+    /// so that the run ends (and the flooding is reported) in reasonable real time
+    pub braked: bool,
 }
 
 pub struct Net {
@@ -221,6 +230,9 @@ fn now_ms() -> u64 {
     tokio::time::Instant::now().into_std().elapsed().as_millis() as u64;
     0
 }
+
+/// Requests served in one history before the brake engages (clean runs stay two orders of magnitude below).
+const REQUEST_BRAKE: usize = 2500;
 
 thread_local! {
     static RT_START: std::cell::Cell<Option<tokio::time::Instant>> = const { std::cell::Cell::new(None) };
@@ -277,10 +289,28 @@ impl Net {
             reply = Reply::ApiError(7);
             lapsed_answer = true;
         }
-        let latency = Duration::from_millis(st.towers[ti].latency_ms as u64);
+        let for_good = st.towers[ti].lapsed_for_good.is_some();
+        if endpoint == "add_appointment" && reply == Reply::Accept && for_good {
+            reply = Reply::ApiError(7);
+        }
+        // (a client caught sending without letting any time pass is slowed down from then on, so that virtual time moves
+        // again and the session can end and report it)
+        if st.log.len() > REQUEST_BRAKE {
+            st.braked = true;
+        }
+        let latency = Duration::from_millis(if st.braked {
+            30_000
+        } else if st.hot_loop {
+            1000
+        } else {
+            st.towers[ti].latency_ms as u64
+        });
         {
             let t = &mut st.towers[ti];
-            if lapsed_answer && !t.lapse_told {
+            if for_good {
+                // keeps failing: nothing it answers meanwhile counts as recovery
+                t.healthy_since = None;
+            } else if lapsed_answer && !t.lapse_told {
                 // From now on the client knows what to do (renew, then re-send): if the tower is otherwise healthy, the
                 // recovery clock for what this made pending starts here, not when the tower last came back.
                 t.lapse_told = true;
@@ -294,11 +324,11 @@ impl Net {
                     t.bad_register_reply = true;
                 }
             }
-            if t.script.is_empty() && t.default == Reply::Accept && t.healthy_since.is_none() && reply == Reply::Accept {
+            if !for_good && t.script.is_empty() && t.default == Reply::Accept && t.healthy_since.is_none() && reply == Reply::Accept {
                 // first correct answer after trouble
                 t.healthy_since = Some(now);
             }
-            if t.script.is_empty() && t.default == Reply::Accept && reply != Reply::Accept && !lapsed_answer {
+            if !for_good && t.script.is_empty() && t.default == Reply::Accept && reply != Reply::Accept && !lapsed_answer {
                 // that was the last scripted misbehaviour
                 t.healthy_since = Some(now + latency.as_millis() as u64);
             }
@@ -659,6 +689,9 @@ pub struct TowerModel {
     /// unreachable whatever it was before (the open C13 finding `status_stuck...`); consequences of that flip are
     /// not reported a second time
     pub user_cmd_failed: bool,
+    /// last virtual instant at which the user (or a restart, or the script) did something that starts, wakes or
+    /// redirects this tower's retrier
+    pub touched_ms: u64,
 }
 
 struct Session<'a> {
@@ -915,19 +948,23 @@ impl<'a> Session<'a> {
                     .collect()
             })
             .unwrap_or_default();
+        let braked = self.net.st.lock().unwrap_or_else(|e| e.into_inner()).braked;
+        if braked {
+            self.probe("request_brake_engaged");
+        }
         for t in 0..self.towers.len() {
             let tm = &self.towers[t];
-            if !tm.registered || tm.abandoned || tm.misbehaved_at.is_some() {
+            if !tm.registered || tm.abandoned || tm.misbehaved_at.is_some() || braked {
                 continue;
             }
             let tid = self.tower_id(t as u32).to_vec();
             if !db.towers.contains_key(&tid) || db.proofs.contains_key(&tid) {
                 continue;
             }
-            let (healthy_since, failing_since, latency, bad_reg) = {
+            let (healthy_since, failing_since, latency, bad_reg, for_good) = {
                 let st = self.net.st.lock().unwrap_or_else(|e| e.into_inner());
                 let tw = &st.towers[t];
-                (tw.healthy_since, tw.failing_since, tw.latency_ms as u64, tw.bad_register_reply)
+                (tw.healthy_since, tw.failing_since, tw.latency_ms as u64, tw.bad_register_reply, tw.lapsed_for_good)
             };
             let pending: Vec<Vec<u8>> = db.pending.iter().filter(|(_, x)| *x == tid).map(|(l, _)| l.clone()).collect();
             let status = statuses.get(&hex::encode(&tid)).cloned().unwrap_or_default();
@@ -983,6 +1020,49 @@ impl<'a> Session<'a> {
                 }
                 if now > f + (cfg.max_retry_time as u64 + 2 * cfg.max_interval as u64 + 15) * 1000 + latency * 40 && !pending.is_empty() {
                     self.probe("gave_up_checked");
+                }
+            }
+            // A tower that keeps failing is given up on: a retry run lasts at most the maximum retry time (plus its last
+            // back-off interval and the requests in flight), and is followed by an idle period of at least the auto-retry
+            // delay during which the retrier sends nothing. So any stretch of a failing episode as long as one run plus
+            // one idle period shows a silence of at least half the idle period, unless the user woke the retrier up.
+            if let Some(f) = failing_since.or(for_good) {
+                let round_ms = latency * (2 * pending.len() as u64 + 8);
+                let t_give = (cfg.max_retry_time as u64 + 2 * cfg.max_interval as u64 + 15) * 1000 + latency * 40;
+                let idle_ms = cfg.auto_retry_delay as u64 * 1000;
+                let window = t_give + idle_ms + 3000;
+                let in_run_spacing = 1500 * cfg.max_interval as u64 + round_ms + 2000;
+                let since = f.max(self.towers[t].touched_ms);
+                if !pending.is_empty() && idle_ms / 2 > in_run_spacing && now > since + window && view.is_some() {
+                    let st = self.net.st.lock().unwrap_or_else(|e| e.into_inner());
+                    let from = now - window;
+                    let mut last = from;
+                    let mut widest = 0u64;
+                    let mut n = 0u32;
+                    for r in st.log.iter().filter(|r| {
+                        r.tower == t as u32 && r.at_ms >= from && (r.endpoint == "add_appointment" || r.endpoint == "register")
+                    }) {
+                        widest = widest.max(r.at_ms.saturating_sub(last));
+                        last = r.delivered_ms.max(r.at_ms);
+                        n += 1;
+                    }
+                    widest = widest.max(now.saturating_sub(last));
+                    drop(st);
+                    self.probe("giving_up_checked_by_silence");
+                    if widest < idle_ms / 2 {
+                        self.report(
+                            "C13",
+                            "never_gives_up_on_failing_tower",
+                            format!(
+                                "{at}: tower {t} has been failing for {}s; in the last {}s it got {n} requests from the retrier with no silence longer than {}ms (a run is limited to {}s and is followed by {}s of idling; status '{status}')",
+                                (now - f) / 1000,
+                                window / 1000,
+                                widest,
+                                cfg.max_retry_time,
+                                cfg.auto_retry_delay
+                            ),
+                        );
+                    }
                 }
             }
         }
@@ -1142,6 +1222,7 @@ pub fn run_client(hist: &ClientHistory) -> ClientResult {
             bad_register_reply: false,
             lapsed: false,
             lapse_told: false,
+            lapsed_for_good: None,
         });
     }
     let net = Arc::new(Net {
@@ -1153,6 +1234,7 @@ pub fn run_client(hist: &ClientHistory) -> ClientResult {
             requests_without_time_advance: 0,
             last_request_ms: u64::MAX,
             hot_loop: false,
+            braked: false,
         }),
         dead: AtomicBool::new(false),
     });
@@ -1202,6 +1284,7 @@ pub fn run_client(hist: &ClientHistory) -> ClientResult {
                 requests_at_misbehaviour: 0,
                 ignore_before: 0,
                 user_cmd_failed: false,
+                touched_ms: 0,
             })
             .collect(),
         handled: BTreeMap::new(),
@@ -1242,6 +1325,8 @@ pub fn run_client(hist: &ClientHistory) -> ClientResult {
                                 tw.healthy_since = Some(now);
                             }
                         }
+                        drop(st);
+                        s.towers.iter_mut().for_each(|tm| tm.touched_ms = now);
                     }
                     // give the retry manager a moment, then check reload consistency
                     tokio::time::sleep(Duration::from_millis(10)).await;
@@ -1434,6 +1519,25 @@ impl<'a> Session<'a> {
     }
 
     async fn exec(&mut self, ld: &mut Lightningd, op: &COp, killed: &Arc<AtomicBool>) -> bool {
+        {
+            let now = self.epoch_ms + virtual_ms();
+            match op {
+                COp::Register { t }
+                | COp::RetryTower { t }
+                | COp::AbandonTower { t }
+                | COp::Lapse { t }
+                | COp::LapseForGood { t }
+                | COp::Latency { t, .. }
+                | COp::Script { t, .. }
+                | COp::Default { t, .. } => {
+                    if let Some(tm) = self.towers.get_mut(*t as usize) {
+                        tm.touched_ms = now;
+                    }
+                }
+                COp::Kill => self.towers.iter_mut().for_each(|tm| tm.touched_ms = now),
+                _ => {}
+            }
+        }
         match op {
             COp::Register { t } => {
                 let id = self.tower_id(*t);
@@ -1548,6 +1652,7 @@ impl<'a> Session<'a> {
                     tw.default = reply.clone();
                     if *reply == Reply::Accept {
                         tw.failing_since = None;
+                        tw.lapsed_for_good = None;
                         if tw.script.iter().all(|r| *r == Reply::Accept) && tw.healthy_since.is_none() {
                             tw.healthy_since = Some(now);
                         }
@@ -1575,6 +1680,18 @@ impl<'a> Session<'a> {
                 }
                 drop(st);
                 self.probe("subscription_lapsed_at_tower");
+            }
+            COp::LapseForGood { t } => {
+                let now = self.epoch_ms + virtual_ms();
+                let mut st = self.net.st.lock().unwrap_or_else(|e| e.into_inner());
+                if let Some(tw) = st.towers.get_mut(*t as usize) {
+                    if tw.registrations > 0 && tw.lapsed_for_good.is_none() {
+                        tw.lapsed_for_good = Some(now);
+                        tw.healthy_since = None;
+                    }
+                }
+                drop(st);
+                self.probe("subscription_refused_for_good_at_tower");
             }
             COp::RetryTower { t } => {
                 let id = self.tower_id(*t);
